@@ -520,6 +520,9 @@ func GenRounds(prop string, r *sim.Rand, tier string) sim.Script {
 			} else {
 				s.Ops = append(s.Ops, Op{K: "discard", T: kidx})
 			}
+			if prop == "C04" && r.Chance(1, 10) {
+				s.Ops = append(s.Ops, Op{K: "midsave"})
+			}
 		}
 		if syncAt == 0 {
 			s.Ops = append(s.Ops, Op{K: "sync"})
